@@ -44,13 +44,13 @@ FieldEqLoose(f, a, b) ==
 RdEqLoose(t, v1, v2) == \A i \in 1..Len(LayoutOf(t)) : FieldEqLoose(LayoutOf(t)[i], v1[i], v2[i])
 RdEqFree(t, v1, v2) == RdEqLoose(t, v1, v2) /\ ~RdEq(t, v1, v2)
 
-(* records: [class, owner, ttl, t, val] *)
-RecSameKey(r, s) == r.class = s.class /\ NameEq(r.owner, s.owner) /\ r.t = s.t
+(* records: [class, owner, ttl, code, t, val]  (code: numeric type, t: its row) *)
+RecSameKey(r, s) == r.class = s.class /\ NameEq(r.owner, s.owner) /\ r.code = s.code
 RecEqCore(r, s) == RecSameKey(r, s) /\ RdEq(r.t, r.val, s.val)
 \* == is pinned unless only the TTL (or character-string case) differs
 RecEqFree(r, s) == RecSameKey(r, s) /\ RdEqLoose(r.t, r.val, s.val)
                      /\ (r.ttl # s.ttl \/ ~RdEq(r.t, r.val, s.val))
-RecCanonPinned(r, s) == r.class = s.class /\ (~NameEq(r.owner, s.owner) \/ r.t = s.t)
+RecCanonPinned(r, s) == r.class = s.class /\ (~NameEq(r.owner, s.owner) \/ r.code = s.code)
 RecCanonCmp(r, s) ==     \* meaningful where RecCanonPinned
   IF ~NameEq(r.owner, s.owner) THEN CanonNameCmp(r.owner, s.owner)
   ELSE CanonRdCmp(r.t, r.val, s.val)
@@ -124,10 +124,22 @@ RdDev(x, u, v) ==
            !.issues = <<"AllRecordData partial_cmp differs from cmp">>]]
   ELSE <<>>
 
+\* Besides Record itself the executor looks at the other views of a record:
+\*   hdr_eq     RecordHeader (owner, type, class, TTL, RDLENGTH): all fields
+\*   parsed_eq  ParsedRecord (header + unparsed RDATA): header and RDATA octets
+\*   q_eq       Question built from (owner, type, class)
+\*   q_canon    canonical order of questions = octet order of the wire form
+\*              with the name lower-cased
+QWire(r) == ToWireAbs(LowerName(r.owner)) \o EncU16(r.code) \o EncU16(r.class)
 RecExp(r, s) ==
   LET e == IF RecEqFree(r, s) THEN Free ELSE RecEqCore(r, s)
+      hq == RecSameKey(r, s) /\ r.ttl = s.ttl /\ RdLen(r.t, r.val) = RdLen(s.t, s.val)
   IN [eq |-> e, cmp0 |-> e,
       canon |-> IF RecCanonPinned(r, s) THEN RecCanonCmp(r, s) ELSE Free,
+      hdr_eq |-> hq,
+      parsed_eq |-> hq /\ ComposeRd(r.t, r.val) = ComposeRd(s.t, s.val),
+      q_eq |-> RecSameKey(r, s),
+      q_canon |-> LexCmp(QWire(r), QWire(s)),
       hash_ok |-> TRUE, issues |-> <<>>]
 \* D_record_hash_ttl: Record's == ignores the TTL, its Hash feeds it
 \* D_alldata_eq_opt_unknown makes records with OPT / unknown data never equal
